@@ -174,7 +174,7 @@ def main():
     bat = Battery({"items": ["A", "B"], "sequence length": L, "event pairs": "13 classes x 2 src x 2 dest x synthetic flag, all pairs", "interleavings": ["consumer between Queue.put and late bookkeeping", "second producer in that window"]})
     ops = [("put", "A"), ("put", "B"), ("get",)]
     for seq in itertools.product(ops, repeat=L):
-        bat.case(hash(seq), nontrivial=True)
+        bat.case(hash(seq), nontrivial=True, desc=[list(o) for o in seq])
         pr = run_seq(seq)
         if pr:
             bat.fail("C16.sequential", pr[0], {"kind": "seq", "seq": [list(o) for o in seq], "problems": pr[:3]}, "SkipRepeatsQueue")
@@ -194,4 +194,5 @@ def main():
     bat.finish()
 
 
-main()
+if __name__ == "__main__":
+    main()
